@@ -2,6 +2,7 @@ import GateryModel.C18.Lemmas3
 import GateryModel.C18.Literal
 import GateryModel.C18.BigInt
 import GateryModel.C18.CompareExt
+import GateryModel.C18.LiteralProof
 /-!
 # C18 — property theorems
 
@@ -18,10 +19,10 @@ Covered by theorem: get/set/clear/toggle, insertNonStraddling, extractNonStraddl
 included), setRange/clearRange (3-segment split), copyRange (byte fast path + chunk loop), compareRange
 (DefaultConfig and ExtendedConfig specialisations), resize, operator==, allOne/allZero/allDefined/anyDefined, extract(start,size),
 insert(state,…), append, extractBigInt / insertBigInt (≤ 64 bit path and word-aligned wide path, negative values as two's complement) and their round trip, and arbitrary operation sequences.
+Literals: `parseBitVector` on `x` / `o` / `b` literals of any length with or without explicit width equals the grammar's bit array
+(`literal_digits_spec`, `parseBitVector_digits_spec`); binary text round trip.
 Covered by correspondence only (driver compares model AND spec with the implementation, no theorem yet):
- literal parsing (`parseBitVector`: model in C18/Literal.lean follows the
-spirit grammar and the container calls; the driver also checks the digit-by-digit grammar specification `specDigits`) and
-formatting (`operator<<` binary / hex).
+decimal (`d`) and string (`s`) literals and formatting (`operator<<` binary / hex).
 -/
 namespace Gatery.C18.Props
 open Gatery.C18 Gatery.Gen
@@ -168,6 +169,23 @@ theorem bigInt_round_trip (p : Plane) (off size : Nat) (v : Int) (hin : off + si
 
 theorem resize_refines (p : Plane) (n m : Nat) (hc : Clean p n) :
     absPlane (resizePlane p m) m = specResize (absPlane p n) m := resize_abs p n m hc
+
+/-- **Literals, digit loop.** For every `b` (1 bit per digit), `o` (3) and `x` (4) digit string of any length, with or without an explicit
+    width, the parser's digit loop on the word-level container (`insert` per digit, which may straddle a word: the 22nd octal digit)
+    yields exactly the bit array the grammar denotes — digits right to left, `x`/`X` digits undefined, zero extension to the explicit
+    width — and rejects exactly when the explicit width is too small. -/
+theorem literal_digits_spec (bps : Nat) (hb : bps = 1 ∨ bps = 3 ∨ bps = 4) (num : List Char) (width : Option Nat) :
+    resultBits (parseDigits bps num (initState width)) = specDigits bps num width :=
+  parseDigits_spec bps (by omega) (by omega) num width
+
+/-- the whole of `parseBitVector` on such literals: the grammar's bit array for well-formed digit strings, a design error otherwise -/
+theorem parseBitVector_digits_spec (s : String) (width : Option Nat) (tag : Char) (num : List Char)
+    (h : splitWidth s.toList = (width, tag :: num)) (bps : Nat) (ht : (tag = 'x' ∧ bps = 4) ∨ (tag = 'o' ∧ bps = 3) ∨ (tag = 'b' ∧ bps = 1)) :
+    resultBits (parseBitVector s) = if num.all (digitOk bps) then specDigits bps num width else none :=
+  parseBitVector_digits s width tag num h bps ht
+
+example : resultBits (parseBitVector "10xA3") = specDigits 4 ['A', '3'] (some 10) := by
+  rw [parseBitVector_digits_spec "10xA3" (some 10) 'x' ['A', '3'] (by decide) 4 (Or.inl ⟨rfl, rfl⟩)]; decide
 
 /-- Formatting then parsing (grammar level): the binary text of any four-state vector, read as a `b` literal, denotes that vector. -/
 theorem binary_text_round_trip (bits : List (Option Bool)) :
